@@ -3,13 +3,29 @@
 (* the protocol in Cli.tla.  The reason printed for a rejected run is the outcome.    *)
 EXTENDS Cli, TLC, Json, IOUtils
 Rec == ndJsonDeserialize(IOEnv.TRACE)
-VARIABLE l
-Init == l = 1
+(* A memo ties the ways a git sub-command can FAIL together: for one scenario and one     *)
+(* position, a call that exits non-zero with a message, exits non-zero silently, or is       *)
+(* killed by a signal is "a git sub-command failing" each time - zerv may tolerate the        *)
+(* failure of that call (Ok) or report it (CleanError), but not depending on how it died.     *)
+VARIABLES l, memo
+Init == l = 1 /\ memo = <<>>              \* sequence of [key, class]
+PlainFailures == {"fail-generic", "fail-empty", "killed"}
+IsPlain(e) == e.k = "plan" /\ e.extra.single_pos > 0 /\ e.extra.single_mode \in PlainFailures
+KeyOf(e) == <<e.extra.scenario, e.extra.single_pos>>
+Seen(key) == \E i \in 1..Len(memo) : memo[i].key = key
+ClassAt(key) == (CHOOSE i \in 1..Len(memo) : memo[i].key = key)
+Reason(e) ==
+  LET why == Outcome(e.o) IN
+  IF why \notin {"Ok", "CleanError"} THEN why
+  ELSE IF IsPlain(e) /\ Seen(KeyOf(e)) /\ memo[ClassAt(KeyOf(e))].class # why THEN "outcome-depends-on-how-git-failed"
+  ELSE "ok"
 Next == /\ l <= Len(Rec)
-        /\ LET why == Outcome(Rec[l].o) IN
-           IF why \in {"Ok", "CleanError"} THEN TRUE ELSE PrintT("MISMATCH " \o ToString(l) \o " " \o why)
+        /\ LET e == Rec[l]  why == Reason(e) IN
+           /\ IF why = "ok" THEN TRUE ELSE PrintT("MISMATCH " \o ToString(l) \o " " \o why)
+           /\ memo' = IF IsPlain(e) /\ ~Seen(KeyOf(e)) /\ Outcome(e.o) \in {"Ok", "CleanError"}
+                       THEN Append(memo, [key |-> KeyOf(e), class |-> Outcome(e.o)]) ELSE memo
         /\ l' = l + 1
-Spec == Init /\ [][Next]_l
+Spec == Init /\ [][Next]_<<l, memo>>
 AllConsumed == IF TLCGet("stats").diameter = Len(Rec) + 1 THEN TRUE
                ELSE PrintT("UNCONSUMED " \o ToString(TLCGet("stats").diameter)) /\ FALSE
 =============================================================================
